@@ -3,7 +3,7 @@ EXTENDS Legacy
 CONSTANT Depth
 VARIABLE sc
 FVs == {f \in Singles \cup Vary2("ids", "imports") \cup Vary2("depth", "pairs") \cup Vary3("site", "cls", "ids") : Sensible(f) /\ f.site \notin {"resetId", "tvId"}}
-VRs == IF Depth = "quick" THEN VSingles \cup VVary2("version", "mathStyle") \cup VVary2("mathStyle", "mathPos") \cup VVary2("version", "unitsPlace") ELSE VAll
+VRs == IF Depth = "quick" THEN VSingles \cup VVary2("version", "mathStyle") \cup VVary2("mathStyle", "mathPos") \cup VVary2("version", "unitsPlace") \cup VVary2("spell", "unitsPlace") ELSE VAll
 Init == sc \in {[fv |-> f, vr |-> v] : f \in (IF Depth = "quick" THEN {g \in FVs : g.cls \in {"plain", "AMP", "EACUTE"}} ELSE FVs), v \in VRs}
 Next == UNCHANGED sc
 Spec == Init /\ [][Next]_sc
